@@ -23,27 +23,28 @@ type c06 struct{ base }
 func init() { mon.Register(&c06{}) }
 
 type CrashCase struct {
-	Src     []byte `json:"src"`
-	SrcQ    string `json:"src_quoted"`
-	Lang    string `json:"lang"`
-	Source  string `json:"source"`
-	Entry   string `json:"entry"` // Parse StmtsSeq WordsSeq InteractiveSeq Document Arithmetic
-	Keep    bool   `json:"keep_comments"`
-	StopAt  string `json:"stop_at,omitempty"`
-	Recover int    `json:"recover_errors,omitempty"`
-	StopIt  int    `json:"stop_iter_after,omitempty"` // break out of an iterator after k items (0: never)
-	Family  string `json:"family,omitempty"`          // scalable timing family, if any
+	Src     []byte   `json:"src"`
+	SrcQ    string   `json:"src_quoted"`
+	Lang    string   `json:"lang"`
+	Source  string   `json:"source"`
+	Entry   string   `json:"entry"` // Parse StmtsSeq WordsSeq InteractiveSeq Document Arithmetic
+	Keep    bool     `json:"keep_comments"`
+	StopAt  string   `json:"stop_at,omitempty"`
+	Recover int      `json:"recover_errors,omitempty"`
+	StopIt  int      `json:"stop_iter_after,omitempty"` // break out of an iterator after k items (0: never)
+	Family  string   `json:"family,omitempty"`          // scalable timing family, if any
+	Prior   [][]byte `json:"prior,omitempty"`           // inputs the same Parser object parsed before (a Parser may be reused)
 }
 
 func (*c06) ID() string { return "C06" }
 func (*c06) Rule() string {
-	return "byte strings from: uniform random bytes, dictionary-biased random tokens, the corpus and grammar programs (all variants) under byte-level mutation; crossed with entry point (Parse, StmtsSeq, WordsSeq, InteractiveSeq, Document, Arithmetic), KeepComments, StopAt and RecoverErrors; every tree returned without error (RecoverErrors trees included) is printed under 3 option points, simplified, walked, JSON-encoded and debug-printed. A panic, a dying worker process or a single call burning > 20 s of thread CPU time is a violation; scalable input families are timed over successive doublings for super-linear growth. Non-trivial: input of >= 2 bytes; distinct: hash of the whole case."
+	return "byte strings from: uniform random bytes, dictionary-biased random tokens, the corpus and grammar programs (all variants) under byte-level mutation; crossed with entry point (Parse, StmtsSeq, WordsSeq, InteractiveSeq, Document, Arithmetic), KeepComments, StopAt and RecoverErrors, a quarter of them on a Parser object that already parsed 1-3 other (truncated, mutated, heredoc-pending) inputs; every tree returned without error (RecoverErrors trees included) is printed under 3 option points, simplified, walked, JSON-encoded and debug-printed. A panic, a dying worker process or a single call burning > 20 s of thread CPU time is a violation; scalable input families are timed over successive doublings for super-linear growth. Non-trivial: input of >= 2 bytes; distinct: hash of the whole case."
 }
-func (*c06) NumCases(tier string) int               { return tierN(tier, 40000, 1200000) }
-func (*c06) MinNontrivial(tier string) int          { return tierN(tier, 15000, 400000) }
-func (*c06) New() any                               { return &CrashCase{} }
-func (*c06) CrashIsViolation() bool                 { return true }
-func (*c06) CaseTimeout() time.Duration             { return 180 * time.Second }
+func (*c06) NumCases(tier string) int      { return tierN(tier, 40000, 1200000) }
+func (*c06) MinNontrivial(tier string) int { return tierN(tier, 15000, 400000) }
+func (*c06) New() any                      { return &CrashCase{} }
+func (*c06) CrashIsViolation() bool        { return true }
+func (*c06) CaseTimeout() time.Duration    { return 180 * time.Second }
 func (*c06) Assumptions() []string {
 	return []string{"trees returned together with a non-nil error are partial and are not printed", "StopAt words that the API documents as invalid (longer than 4 bytes, containing whitespace) are not used", "time is thread CPU time (getrusage RUSAGE_THREAD); the wall-clock watchdog only yields inconclusive"}
 }
@@ -105,6 +106,27 @@ func (p *c06) Gen(i int, r *rand.Rand) any {
 	}
 	c.Src = []byte(src)
 	c.SrcQ = strconv.Quote(src)
+	if r.IntN(4) == 0 {
+		// a reused parser: earlier inputs that end in errors at awkward places
+		for k := 1 + r.IntN(3); k > 0; k-- {
+			h := p.corpus.Snippets[r.IntN(len(p.corpus.Snippets))]
+			switch r.IntN(4) {
+			case 0:
+				h = gen.MutateBytes(r, h, src)
+			case 1:
+				if len(h) > 1 {
+					h = h[:1+r.IntN(len(h)-1)]
+				}
+			case 2:
+				h = []string{"cat <<EOF ", "cat <<EOF; ", "a <<-X | ", "<<'Q' "}[r.IntN(4)] + h
+				if len(h) > 12 {
+					h = h[:10+r.IntN(len(h)-10)]
+				}
+			}
+			c.Prior = append(c.Prior, []byte(h))
+		}
+		c.Source += "+reused-parser"
+	}
 	return c
 }
 
@@ -274,6 +296,9 @@ func (p *c06) Run(payload any) mon.Result {
 		opts = append(opts, syntax.RecoverErrors(c.Recover))
 	}
 	parser := syntax.NewParser(opts...)
+	for _, h := range c.Prior {
+		parser.Parse(bytes.NewReader(h), "") // a panic here is the same violation
+	}
 	rd := bytes.NewReader(c.Src)
 	var nodes []syntax.Node
 	t0 := threadCPU()
